@@ -396,13 +396,23 @@ def replay_step(c, rt, module_args, jsonl, extra_args=(), parts=4, label="", wha
     tb = ts = 0
     for (rc, summ, out), p in zip(run_parallel(cmds, timeout=3000), pieces):
         if rc != 0 or summ is None:
-            c.violation("replay child crashed (rc=%s) while driving the real code on %s %s" % (rc, p, label),
-                        {"file": p, "args": list(module_args) + list(extra_args)})
+            # UB in the code under test can kill the child: find the behaviour that did it
+            e2 = dict(os.environ); e2["VERIF_BISECT"] = "1"
+            pr = subprocess.run([rt] + list(module_args) + ["replay", p] + list(extra_args), capture_output=True, text=True, env=e2)
+            idx = [int(l.split()[1]) for l in pr.stderr.splitlines() if l.startswith("BEH ")]
+            beh = None
+            if idx:
+                with open(p) as f:
+                    for i, l in enumerate(f):
+                        if i == idx[-1]:
+                            beh = json.loads(l)
+            c.violation("the real code crashed the replay child (rc=%s) %s on behaviour %s" % (rc, label, json.dumps(beh)[:600]),
+                        {"beh": beh, "adapter": list(module_args) + ["replay"] + list(extra_args), "crash_rc": rc})
             continue
         tb += summ["behaviours"]
         ts += summ["steps"]
         for f in summ["first_failures"][:1]:
-            f["adapter"] = list(module_args) + list(extra_args)
+            f["adapter"] = list(module_args) + ["replay"] + list(extra_args)
             c.violation("%s %s at step %s: %s" % (what, label, f["step"], f["msg"]), f)
     for p in pieces:
         os.remove(p)
